@@ -8,7 +8,7 @@ namespace vf {
 struct Digest {
     // exact items are compared as strings (bitwise for doubles in hexfloat); approx items are numeric results that the
     // library recomputes from caches whose size depends on the history (e.g. a 1-D wrapper that was enlarged by a cancelled
-    // refinement): they are compared to rounding, |a-b| <= 1e-12 * max(1, max|a|, max|b|)
+    // refinement): they are compared to rounding, |a-b| <= 1e-9 * max(1, max|a|, max|b|) (weights of Leja-type rules are obtained by solves whose rounding depends on the cached number of levels)
     struct Item { std::string key, sval; std::vector<double> dval; bool approx = false; };
     std::vector<Item> items;
     void add(const std::string &k, const std::string &v) { Item it; it.key = k; it.sval = v; items.push_back(std::move(it)); }
@@ -29,7 +29,7 @@ inline std::string digest_diff(const Digest &a, const Digest &b, bool bitwise_nu
             double sc = 1.0; for (double v : x.dval) if (std::isfinite(v)) sc = std::max(sc, std::fabs(v)); for (double v : y.dval) if (std::isfinite(v)) sc = std::max(sc, std::fabs(v));
             for (size_t k = 0; k < x.dval.size(); k++) {
                 double u = x.dval[k], v = y.dval[k];
-                bool same = bitwise_numeric ? (std::memcmp(&u, &v, sizeof u) == 0 || u == v) : ((std::isnan(u) && std::isnan(v)) || u == v || std::fabs(u - v) <= 1e-12 * sc);
+                bool same = bitwise_numeric ? (std::memcmp(&u, &v, sizeof u) == 0 || u == v) : ((std::isnan(u) && std::isnan(v)) || u == v || std::fabs(u - v) <= 1e-9 * sc);
                 if (!same) return x.key + "[" + std::to_string(k) + "] differs: " + decd(u) + " vs " + decd(v);
             }
         } else if (x.sval != y.sval) {
